@@ -160,6 +160,11 @@ func (p *Program) preDecodeBlocks() ExitReason {
 		p.InstrIdxAt[i] = -1
 	}
 
+	// (A.4) operands are decoded from the zero-extended code ζ ≡ c ⌢ [0, 0, …]: the longest instruction reads
+	// 10 octets past its opcode, so a fixed zero padding makes every operand read well defined
+	padded := make(ProgramCode, n+32)
+	copy(padded, idata)
+
 	pc := ProgramCounter(0)
 	for pc < ProgramCounter(n) {
 		if !bitmask.IsStartOfBasicBlock(pc) {
@@ -192,7 +197,7 @@ func (p *Program) preDecodeBlocks() ExitReason {
 			})
 			p.InstrIdxAt[pc] = int32(idx)
 
-			decodeOperands(&p.Instrs[idx], idata, bitmask)
+			decodeOperands(&p.Instrs[idx], padded, bitmask)
 
 			if IsBlockTerminator(op) {
 				block.EndPC = pc
